@@ -672,6 +672,13 @@ pub assume_specification<T> [Option::<T>::or] (a: Option<T>, b: Option<T>) -> (r
     ensures ret == (if a.is_some() { a } else { b });
 
 // ------------------------------------------------------------------ num_traits::PrimInt as used by the u64/u128 comparison fast path
+// In a submodule: the trait has a method called `from`, which must not come into scope through `use crate::shim::*`
+// (it would make `u64::from(x)` ambiguous everywhere); it is reachable only as num_traits::PrimInt.
+pub mod nt {
+use vstd::prelude::*;
+use vstd::std_specs::cmp::*;
+use core::cmp::Ordering;
+use super::{BigUint, ord_of};
 /// Only what compare_scaled_uints<T> touches.  Implemented (assumed) for u64 and u128.
 pub trait NtPrimInt: Sized + Copy + Ord {
     spec fn nt_val(&self) -> int;
@@ -721,6 +728,7 @@ macro_rules! nt_prim_int {
 pub struct TryFromBigIntError { pub _p: () }
 nt_prim_int!(u64);
 nt_prim_int!(u128);
+} // mod nt
 
 // ------------------------------------------------------------------ IEEE-754 (axiom A3: to_bits / classify layout)
 #[verifier::external_type_specification]
